@@ -130,6 +130,9 @@ func (e StdEng) Reduce(fn interface{}, a Tensor, axis int, defaultValue interfac
 		dimSize = a.Shape()[axis]
 		err = e.E.ReduceLast(typ, dataA, dataReuse, dimSize, defaultValue, fn)
 	default:
+		if at.DataOrder().IsColMajor() {
+			return nil, errors.Errorf("NYI: colmajor")
+		}
 		// view the tensor as (outer, axis, inner): everything before the axis is the
 		// outer dimension, not just axis 0 (they coincide only up to rank 3)
 		dimSize := a.Shape()[axis]
@@ -177,6 +180,9 @@ func (e StdEng) OptimizedReduce(a Tensor, axis int, firstFn, lastFn, defaultFn, 
 		dimSize = a.Shape()[axis]
 		err = e.E.ReduceLast(typ, dataA, dataReuse, dimSize, defaultValue, lastFn)
 	default:
+		if at.DataOrder().IsColMajor() {
+			return nil, errors.Errorf("NYI: colmajor")
+		}
 		// view the tensor as (outer, axis, inner): everything before the axis is the
 		// outer dimension, not just axis 0 (they coincide only up to rank 3)
 		dimSize := a.Shape()[axis]
